@@ -7,7 +7,18 @@ from trie.iter import NodeIterator
 
 ID = "C10"
 LEAN_IMPORTS = ["PyTrie.Props.C10"]
-THEOREMS = []
+THEOREMS = [
+    "PyTrie.Props.C10.plt_nibs",
+    "PyTrie.Props.C10.stored_path_is_key",
+    "PyTrie.Props.C10.next_is_successor",
+    "PyTrie.Props.C10.next_none_is_min",
+    "PyTrie.Props.C10.items_exact",
+    "PyTrie.Props.C10.items_are_keys",
+    "PyTrie.Props.C10.items_sorted",
+    "PyTrie.Props.C10.nodes_are_traverse",
+    "PyTrie.Props.C10.nodes_preorder",
+    "PyTrie.Props.C10.nodes_complete",
+]
 RULE = ("tries built by generated histories (keys that are prefixes of other keys, the empty key, embedded nodes, values on "
         "branches, children 0 and 15); keys()/items()/values()/nodes() sequences and next(k) for every stored key, its "
         "neighbours (k+00, k+ff, last byte +-1, prefixes) and foreign keys, and next(), compared with the Lean model "
